@@ -104,7 +104,10 @@ def client_term(case_line, out_line):
     if f[3] != "-":
         for c in f[3].split("|"):
             if c == "refused":
-                scripts.append("{| cs_refused := true; cs_chunks := []; cs_close := false |}")
+                scripts.append("{| cs_refused := true; cs_chunks := []; cs_close := false; cs_silent := false |}")
+                continue
+            if c == "silent":
+                scripts.append("{| cs_refused := false; cs_chunks := []; cs_close := false; cs_silent := true |}")
                 continue
             close, chunks = False, []
             for item in c.split(","):
@@ -116,7 +119,7 @@ def client_term(case_line, out_line):
                     d, h = item.split(":", 1)
                     bs = b"" if h in ("-", "") else bytes.fromhex(h)
                     chunks.append("(%s, %s)" % ("None" if d == "N" else "Some %d" % int(d), _nl(bs)))
-            scripts.append("{| cs_refused := false; cs_chunks := [%s]; cs_close := %s |}" % ("; ".join(chunks), "true" if close else "false"))
+            scripts.append("{| cs_refused := false; cs_chunks := [%s]; cs_close := %s; cs_silent := false |}" % ("; ".join(chunks), "true" if close else "false"))
     evs = []
     for k, cid, t, hx in ev:
         if k == "O":
